@@ -48,6 +48,10 @@ BASES = {
                                     "RDATE;VALUE=period:20240301T100000Z/PT1H", "ATTACH;FMTTYPE=text/Plain:http://x/y",
                                     "BEGIN:VALARM", "ACTION:DISPLAY", "TRIGGER;RELATED=end:-PT5M", "END:VALARM", "END:VEVENT"],
                                    ["BEGIN:VFREEBUSY", "UID:15b", "FREEBUSY;FBTYPE=busy-Tentative:20240301T080000Z/PT1H", "END:VFREEBUSY"]),
+    # characters Python's text layer treats as line boundaries or strips (str.splitlines separators, BOM, NBSP) are
+    # ordinary value characters in RFC 5545
+    "special-characters": cal(["BEGIN:VEVENT", "UID:16", "SUMMARY:a\u2028b\u0085c\x0bd\x1ce\ufefff\u00a0", "LOCATION;X-P=p\u2028q:\ufeffstart",
+                               "DESCRIPTION:lone\rCR and tab\there \u2029 end\u00a0", "END:VEVENT"]),
     "journal-escapes": cal(["BEGIN:VJOURNAL", "UID:14", "DTSTAMP:20240101T000000Z", "DESCRIPTION:line one\\nline two\\; semi\\, comma", "SUMMARY:plain", "END:VJOURNAL"]),
 }
 CASINGS = ("none", "lower", "title", "alt")
@@ -154,7 +158,16 @@ def build_variant(case):
             eol = "\n"
         bom, as_str, trailing = r2, r3, (0, 1, 3)[r4]
         if refold:
-            lines = [(eol + " ").join(ln) for ln in lines]
+            # a fold after every character - except, with bare-LF line ends, directly after a CR: "CR LF SP" IS a CRLF fold,
+            # so that placement would not denote the same content (the rewrite is only insignificant where it is unambiguous)
+            def fold_all(ln):
+                out = []
+                for i, ch in enumerate(ln):
+                    out.append(ch)
+                    if i + 1 < len(ln) and not (eol == "\n" and ch == "\r"):
+                        out.append(eol + " ")
+                return "".join(out)
+            lines = [fold_all(ln) for ln in lines]
     text = render(lines, eol, trailing)
     if kind in ("fold1", "foldj"):
         pass
